@@ -323,7 +323,10 @@ pub enum POp {
     SendK(u8),
     /// clone the sender, send one value through the clone, drop the clone
     CloneSendDrop,
-    /// clone the sender and hand the clone to a child thread that sends `k` values
+    /// `k` rounds of cloning and dropping a sender: retires enough tokens to open a reclamation
+    /// epoch (which stays open while a consumer sleeps), so that the next send takes the path that
+    /// handles the epoch signal
+    Burst(u8),
     Yield,
 }
 
@@ -399,6 +402,8 @@ pub struct TrafficParams {
     pub blocking_only: bool,
     /// out of 8: share of consumers that add a stream during traffic
     pub fork: u32,
+    /// weight of a producer-side burst of sender clone+drop rounds
+    pub w_burst: u32,
 }
 
 impl Default for TrafficParams {
@@ -419,6 +424,7 @@ impl Default for TrafficParams {
             sink_tasks: false,
             blocking_only: false,
             fork: 0,
+            w_burst: 0,
         }
     }
 }
@@ -429,6 +435,7 @@ fn producer_plan(p: TrafficParams) -> BoxedStrategy<ProducerPlan> {
         (p.w_try, Just(POp::TrySend).boxed()),
         (p.w_sendk, (1u8..4).prop_map(POp::SendK).boxed()),
         (p.w_clone_tx, Just(POp::CloneSendDrop).boxed()),
+        (p.w_burst, (8u8..=26).prop_map(POp::Burst).boxed()),
         (1, Just(POp::Yield).boxed()),
     ]);
     let gate = if p.gates {
@@ -589,6 +596,7 @@ pub fn build_traffic(plan: &TrafficPlan, opts: &ExecOpts) -> Scenario {
                 POp::TrySend => ops.push(if pp.sink && q.futures { Op::StartSend { tx: 0, by_ref: true } } else { Op::TrySend { tx: 0 } }),
                 POp::SendK(k) => ops.push(Op::Send { tx: 0, max: *k }),
                 POp::CloneSendDrop => ops.push(Op::WithCloneTx { tx: 0, sends: 1 }),
+                POp::Burst(k) => ops.push(Op::Repeat { times: *k as u32, body: vec![Op::WithCloneTx { tx: 0, sends: 0 }], sample_after: vec![] }),
                 POp::Yield => ops.push(Op::Yield),
             }
         }
